@@ -25,6 +25,10 @@ abbrev Key := Nat
 inductive Tls | none | handshake | opened
   deriving DecidableEq, Repr
 
+/-- the `TlsMode` argument of connect(): `None`, `Client`, or (meaningless for an outbound connection, but accepted by the API) `Server` -/
+inductive TlsReq | none | client | server
+  deriving DecidableEq, Repr
+
 /-- `CloseOrigin` of tcp_engine.hpp. -/
 inductive Origin | app | connectTimeout | handshakeTimeout | writeStall
   deriving DecidableEq, Repr
@@ -93,6 +97,7 @@ structure Sess where
   wq : Nat := 0                   -- wq.size()
   pkey : Option Key := none       -- udp Role::ServerPeer: peer key
   owner : Lid := 0                -- udp Role::ServerPeer: owning listener
+  connAnnounced : Bool := false   -- ghost: the connect callback has fired for this session
   deriving Repr
 
 /-- The accept / connect callback has fired for this session (client sessions are announced exactly when
@@ -102,7 +107,7 @@ def Sess.announced (s : Sess) : Bool := !s.client || !s.connectPending
 inductive Cmd
   | shutdown
   | addListener (lid : Lid) (tls : Bool)
-  | connect (sid : Sid) (tls : Bool) (named : Bool)
+  | connect (sid : Sid) (tls : TlsReq) (named : Bool)
   | via (sid : Sid) (lid : Lid) (k : Key)
   | send (sid : Sid)
   | close (sid : Sid) (o : Origin)
@@ -112,12 +117,12 @@ inductive Cmd
 inductive Phase | loop | drainProc | drainSess | stopped
   deriving DecidableEq, Repr
 
-/-- Static configuration (from `TransportConfig` and from the translator's variant flags). -/
+/-- Static configuration (from `TransportConfig`, plus flags describing the source variant; the driver sets those to the current tree). -/
 structure Cfg where
   cliCtx : Bool := false          -- `_config.clientTls.enabled && _sslCli`
   srvCtx : Bool := false          -- `_config.serverTls.enabled && _sslSrv`
-  tlsRefuse : Bool := false       -- F18 repair present: TLS requested without a context is refused
-  sniCheck : Bool := false        -- F20 repair present: SSL_set1_host failure site exists (and verifyPeer is on)
+  tlsRefuse : Bool := false       -- doConnect refuses TLS requested without a usable client context (F18 repair; true on the current tree)
+  sniCheck : Bool := false        -- `clientTls.verifyPeer`: SSL_set1_host is called for connects by name (F20 repair)
   inlineHsTimeout : Bool := false -- `!_timerService && handshakeTimeout > 0`
   maxWriteQueue : Nat := 1024
   closeOnBackpressure : Bool := true
@@ -145,7 +150,8 @@ structure G where
   index : Key → Option Sid := fun _ => none           -- udp `_peerIndex`
   tr : List Out := []
   stale : Bool := false
-  envBad : Bool := false
+  dupAnn : Bool := false       -- ghost: a connect callback fired a second time for one session
+  envBad : Bool := false       -- ghost: payload was delivered for a session before its accept/connect callback
 
 def upd {β : Type} (f : Nat → Option β) (k : Nat) (v : Option β) : Nat → Option β := fun x => if x = k then v else f x
 
@@ -189,12 +195,13 @@ def failConnect (site : Site) (g : G) : G :=
 
 /-- mirrors `_sessions.emplace(cr.sid, ...)` + `bumpSess()` of doConnect / connectDo / viaDo: the new session is a client
 session whose connect callback has not fired yet. -/
-def insertCur (tls : Tls) (pkey : Option Key) (owner : Lid) (g : G) : G :=
+def insertCur (useTls : Bool) (pkey : Option Key) (owner : Lid) (g : G) : G :=
   match g.cur with
   | none => { g with stale := true }
   | some sid =>
     { g with cur := none, current := g.current + 1,
-             table := upd g.table sid (some { client := true, connectPending := true, tls := tls, pkey := pkey, owner := owner }) }
+             table := upd g.table sid (some { client := true, connectPending := true, tls := if useTls then .handshake else .none,
+                                              pkey := pkey, owner := owner }) }
 
 /-- mirrors `sid = _nextSessionId++` + emplace + `bumpSess()` + `accepted++` + `acceptCb(sid, ..)` of onListener / readFromListener
 (udp also enters the peer into `_peerIndex` between the emplace and the callback). -/
@@ -214,22 +221,29 @@ def withLive (sid : Sid) (g : G) (k : Sess → G) : G :=
   | none => { g with stale := true }
   | some s => if s.closed then { g with stale := true } else k s
 
-/-- mirrors `connectCb(sid, ..)`, `connected++`, `connectPending = false` (the three always occur together). -/
+/-- mirrors `connectCb(sid, ..)`, `connected++`, `connectPending = false` (the three always occur together); on the TLS path
+`tlsState = Open` is assigned on the lines just before, which is folded in here (a no-op for plain sessions). -/
 def announceConnect (sid : Sid) (g : G) (count : Bool := true) : G :=
   withLive sid g fun s =>
     emit (.announce sid .connect)
-      { g with table := upd g.table sid (some { s with connectPending := false }),
-               connected := if count then g.connected + 1 else g.connected }
+      { g with table := upd g.table sid (some { s with connectPending := false, connAnnounced := true,
+                                                       tls := if s.tls = .handshake then .opened else s.tls }),
+               connected := if count then g.connected + 1 else g.connected,
+               dupAnn := g.dupAnn || s.connAnnounced }
+
+/-- udp: `_sessions.emplace` + `bumpSess()` + `connectCb(..)` of connectDo / viaDo in one go (a UDP "connect" is immediate:
+the session is created with `connectPending = false` and announced at once) -/
+def connectNow (pkey : Option Key) (owner : Lid) (count : Bool) (g : G) : G :=
+  match g.cur with
+  | none => { g with stale := true }
+  | some sid => announceConnect sid (insertCur false pkey owner g) count
 
 /-- mirrors `dataCb(sid, ..)` -/
 def dataCb (sid : Sid) (g : G) : G :=
   withLive sid g fun s =>
     emit (.data sid) { g with envBad := g.envBad || !s.announced }
 
-/-- field updates that do not touch the lifecycle fields -/
-def setTls (sid : Sid) (t : Tls) (g : G) : G :=
-  withLive sid g fun s => { g with table := upd g.table sid (some { s with tls := t }) }
-
+/-- field update that does not touch the lifecycle fields -/
 def setWq (sid : Sid) (n : Nat) (g : G) : G :=
   withLive sid g fun s => { g with table := upd g.table sid (some { s with wq := n }) }
 
